@@ -199,7 +199,7 @@ class SFixed(Template[_FixedTemplateArg], AssignableType):
                     assert self.left() >= val.left()
                     assert self.right() <= val.right()
 
-                    zeros = self.right() - val.right()
+                    zeros = val.right() - self.right()
 
                     self._val = _qualifier_[raw_type](
                         val._val.resize(self._width, zeros=zeros)
@@ -547,7 +547,7 @@ class UFixed(Template[_FixedTemplateArg], AssignableType):
                     assert self.left() >= val.left()
                     assert self.right() <= val.right()
 
-                    zeros = self.right() - val.right()
+                    zeros = val.right() - self.right()
 
                     self._val = _qualifier_[raw_type](
                         val._val.resize(self._width, zeros=zeros)
